@@ -74,7 +74,45 @@ fn hostile_expr(rng: &mut Rng) -> Card {
     }
 }
 
+/// a library call whose callback mutates the very table the library function is working on
+fn mutating_callback_stmt(rng: &mut Rng, i: usize) -> Card {
+    let mutation = match rng.below(4) {
+        0 => c(CardBody::AppendTable(bin(Card::scalar_int(99), Card::read_var("big")))),
+        1 => Card::set_property(Card::string_card("new"), Card::read_var("big"), Card::string_card(format!("fresh key {i}"))),
+        2 => Card::set_global_var("popped", c(CardBody::PopTable(un(Card::read_var("big"))))),
+        _ => Card::composite_card(
+            "grow",
+            (0..12).map(|j| c(CardBody::AppendTable(bin(Card::scalar_int(j), Card::read_var("big"))))).collect(),
+        ),
+    };
+    let (fname, params): (&str, Vec<&str>) = match rng.below(6) {
+        0 => ("std.sorted_by_key", vec!["key", "value"]),
+        1 => ("std.min_by_key", vec!["key", "value"]),
+        2 => ("std.max_by_key", vec!["key", "value"]),
+        3 => ("std.map", vec!["k", "v", "i"]),
+        4 => ("std.filter", vec!["k", "v", "i"]),
+        _ => ("std.any", vec!["k", "v", "i"]),
+    };
+    let mut f = Function::default();
+    for p in params.iter() {
+        f = f.with_arg(p);
+    }
+    // mutate only a few times so that the run stays short
+    f.cards = vec![
+        Card::set_var("budget", c(CardBody::Add(bin(Card::read_var("budget"), Card::scalar_int(1))))),
+        c(CardBody::IfTrue(bin(c(CardBody::Less(bin(Card::read_var("budget"), Card::scalar_int(4)))), mutation))),
+        Card::return_card(Card::read_var(params[1])),
+    ];
+    Card::set_global_var(
+        format!("m{i}"),
+        Card::call_function(fname, vec![c(CardBody::Closure(Box::new(f))), Card::read_var("big")]),
+    )
+}
+
 fn hostile_stmt(rng: &mut Rng, i: usize) -> Card {
+    if rng.chance(1, 8) {
+        return mutating_callback_stmt(rng, i);
+    }
     let a = any_value(rng);
     let b = any_value(rng);
     let d = any_value(rng);
@@ -109,6 +147,13 @@ pub fn gen_hostile(rng: &mut Rng) -> Module {
     main.cards.push(Card::set_property(Card::read_var("cyc"), Card::read_var("cyc"), Card::string_card("me")));
     main.cards.push(Card::set_var("tbl", c(CardBody::CreateTable)));
     main.cards.push(Card::set_property(Card::scalar_int(1), Card::read_var("tbl"), Card::string_card("a")));
+    // a table with enough entries that growing it reallocates its storage, and a counter the
+    // mutating callbacks use
+    main.cards.push(Card::set_var("budget", Card::scalar_int(0)));
+    main.cards.push(Card::set_var("big", c(CardBody::CreateTable)));
+    for j in 0..5 {
+        main.cards.push(c(CardBody::AppendTable(bin(Card::scalar_int(10 - j), Card::read_var("big")))));
+    }
     if rng.chance(1, 3) {
         // mutual cycle
         main.cards.push(Card::set_property(Card::read_var("cyc"), Card::read_var("tbl"), Card::string_card("c")));
